@@ -40,11 +40,8 @@ Definition tie_ok (c : case) : bool := tie_from winit (iops c).
 
 Definition oracle_ok (c : case) : bool := forallb (fun m => m =? 0) (ws_masks c).
 
-(* class 2: only the commodity formats (bit 5) differ. (Class 1, the payee templates, was
-   repaired in /repo 8a0a0e8: a template difference is a violation again.) *)
-Definition known (c : case) : N :=
-  if forallb (fun m => m =? 0) (ws_masks c) then 0
-  else if forallb (fun m => (m =? 0) || (m =? 32)) (ws_masks c) then 2
-  else 0.
+(* no recorded finding is left for C12: class 1 (payee templates) was repaired in /repo 8a0a0e8, class 2
+   (commodity formats depending on a drifting FileOrder) in 6c47e39: any difference from a rebuild is a violation *)
+Definition known (c : case) : N := 0.
 
 Definition judge_all := judge_with tie_ok oracle_ok known.
